@@ -58,7 +58,7 @@ def app(nq, nt, **kw):
     d.update(kw)
     return d
 
-REPLICAS = [{"TZ": "UTC", "GOMAXPROCS": "1"}, {"TZ": "Asia/Tokyo", "GOMAXPROCS": "8"}, {"TZ": "America/St_Johns", "GOMAXPROCS": "3"}]
+REPLICAS = [{"TZ": "UTC", "GOMAXPROCS": "1"}, {"TZ": "Europe/Warsaw", "GOMAXPROCS": "8"}, {"TZ": "America/St_Johns", "GOMAXPROCS": "3"}]
 
 PROPS = {
     "C01": {
@@ -297,6 +297,27 @@ PROPS = {
                       "hash(addr:ref:link), stored signature), returning the stored fields unchanged; malformed requests are errors; under a "
                       "collision-free hash another address / link changes the slot / payload. Real ECDSA and RSA signatures are verified through the "
                       "module and compared with the model and an independent crypto/x509 oracle on every run.",
+    },
+    "C16": {
+        "title": "The v1.2.0 upgrade and store migrations preserve locked value",
+        "model": "Upgrade.v: migrate_pool, upgrade_pools (ModifyVestingPoolsState), shift_account",
+        "runs": [{"kind": "upgrade", "profile": "", "n_quick": 300, "n_thorough": 10000, "per_shard": 20, "env": {"TZ": "UTC"}},
+                 {"kind": "upgrade", "profile": "tz", "n_quick": 150, "n_thorough": 5000, "per_shard": 20, "env": {"TZ": "Europe/Warsaw"}}],
+        "preds": ["C16."],
+        "rule": "pre-upgrade stores generated from (VERIF_SEED, index): 0-4 owners incl./excl. the hard-coded pool owner, pools written in the legacy (v2) "
+                "protobuf format with random sent / withdrawn histories, the validators pool with currently-locked exactly the split sum, one below, decided "
+                "only by its withdrawn history, or far above; old vesting type present / absent; the four hard-coded accounts absent / base / continuous "
+                "vesting with start and end anywhere in 2022-2024; the real v3.MigrateStore, UpdateVestingAccountTraces, ModifyVestingPoolsState and "
+                "ModifyVestingAccountsState run on the store; the second run executes the same cases in a process with TZ=Europe/Warsaw; the owner's "
+                "pools after the upgrade are compared with the Coq model; non-trivial = the split was applied; distinct = distinct (pools, constants)",
+        "partial": ["the minter / distributor parameter migrations (v2 -> v3) are exercised by the repository's own migration tests only; the "
+                    "machinery here covers the vesting pool migration, the validators-pool split and the account shift"],
+        "level_text": "Coq theorems for every pre-upgrade pool list and any split constants: the v2->v3 migration keeps every pool's amounts, history and "
+                      "lock period; the validators-pool split, when applied, keeps the total locked, every pre-existing pool's sent/withdrawn and lock "
+                      "period, takes exactly the sum from the validators pool, appends exactly the configured pools with sent = withdrawn = 0, and "
+                      "preserves the per-pool solvency bounds; it is applied completely or not at all; shifted accounts keep their amounts for any "
+                      "calendar function. The real migration and upgrade functions run on generated legacy stores, incl. in a second process under "
+                      "another time zone (F7), with the registered vesting invariants evaluated afterwards.",
     },
     "C17": {
         "title": "Genesis lineage of vesting accounts and vesting summaries are accurate",
